@@ -20,7 +20,8 @@ pub fn documented(env: &Env) -> BTreeMap<&'static str, BTreeSet<String>> {
                 let l = line.trim();
                 if let Some(rest) = l.strip_prefix('|') {
                     let first = rest.split('|').next().unwrap_or("").trim();
-                    if !first.is_empty() && first.chars().all(|c| c.is_ascii_lowercase() || c.is_ascii_digit() || c == '_') && first.contains('_') || first == "sstore" {
+                    // a name cell: lower-case identifier (the header cells are capitalised, the rule cells are dashes)
+                    if first.chars().next().map(|c| c.is_ascii_lowercase()).unwrap_or(false) && first.chars().all(|c| c.is_ascii_lowercase() || c.is_ascii_digit() || c == '_') {
                         set.insert(first.to_string());
                     }
                 }
@@ -113,19 +114,18 @@ fn library_level(env: &Env, st: &mut Stats) -> Vec<Violation> {
                 out.push(Violation::new("names", format!("{cat}:default-pattern-without-documented-name:{:?}", d), format!("{:?} runs by default but no documented name selects it", d), json!({"category": cat})));
             }
         }
-        // the default list holds every pattern of the category exactly once
+        // the default list holds every pattern of the category ("without [a configuration] all patterns are [analysed]")
         let all_of_cat: Vec<P> = patterns::all().into_iter().filter(|p| p.category() == *cat).collect();
         for p in &all_of_cat {
             let n = defaults.iter().filter(|d| **d == p.pat).count();
-            if n != 1 {
+            if n < 1 {
                 out.push(Violation::new("names", format!("{cat}:default-list:{}", p.name), format!("{} appears {} times in the default pattern list", p.name, n), json!({"category": cat})));
             }
         }
         // unknown names are rejected
-        let mut unknown: Vec<String> = vec!["".into(), " ".into(), "unknown_pattern".into(), "all".into(), "*".into()];
+        // (names that differ from a documented one only by surrounding blanks are left undecided)
+        let mut unknown: Vec<String> = vec!["".into(), "unknown_pattern".into(), "all".into(), "*".into()];
         for name in names.iter().take(40) {
-            unknown.push(format!("{name} "));
-            unknown.push(format!(" {name}"));
             unknown.push(name[..name.len() - 1].to_string());
             unknown.push(format!("{name}s"));
             unknown.push(name.replace('_', "-"));
@@ -229,7 +229,7 @@ fn binary_case(env: &Env, tape: &[u8], st: &mut Stats) -> Vec<Violation> {
         c.selected = perm.into_iter().map(|i| c.selected[i].clone()).collect();
         if t.chance(50) {
             let cat = *t.pick(&["optimizations", "vulnerabilities", "qa"]);
-            let n = *t.pick(&["unknown_pattern", "", "sstores", "address_zero ", "floating-pragma", "constructor_orders"]);
+            let n = *t.pick(&["unknown_pattern", "", "sstores", "address_zer", "floating-pragma", "constructor_orders"]);
             // a name of another category is unknown here
             c.unknown = Some((cat.to_string(), n.to_string()));
         }
@@ -319,9 +319,14 @@ fn run_bin_case(env: &Env, c: &BinCase, st: &mut Stats) -> Vec<Violation> {
     let expect_marker = match expect_marker {
         Some(m) => m,
         None => {
-            // nothing to analyse: the tool must fail, not invent a directory
+            // nothing to analyse (no --path, no configuration, no ./contracts): the property does not say
+            // how such a run ends, only that no other directory may be analysed instead
+            st.count("runs_without_any_directory");
             if out.code == Some(0) {
-                return vec![Violation::new("binary", "directory:no-directory-but-success", "no --path, no configuration and no ./contracts, yet exit status 0", case)];
+                let report = String::from_utf8_lossy(&out.report.unwrap_or_default()).to_string();
+                if !parse_report(&report).entries.is_empty() {
+                    return vec![Violation::new("binary", "directory:wrong-directory", "no --path, no configuration and no ./contracts, yet the report lists findings", case)];
+                }
             }
             return vec![];
         }
